@@ -12,6 +12,7 @@ class GenTask:
         self.gen = iter(gen)
         self.steps = 0
         self.done = False
+        self.not_closable = False
 
     def step(self):
         """True if the generator yielded, False if it is exhausted"""
@@ -24,6 +25,12 @@ class GenTask:
         return True
 
     def close(self):
+        if not hasattr(self.gen, 'close'):
+            # what YP.query / unify returned cannot be closed: remember it (a verdict for the checks that care) and drop it
+            self.not_closable = True
+            self.gen = None
+            self.done = True
+            return
         self.gen.close()
         self.done = True
 
